@@ -136,7 +136,19 @@ fn worker(args: &[String]) -> i32 {
             let mut paths = [0usize; 5];
             let mut all_dead = 0usize;
             let mut cost_checked = 0usize;
+            let clone_own_armed = mon.armed.iter().any(|a| matches!(a, Some(cactus_mc::ops::Script::CloneOwn(_))));
             for &l in &cfg.layouts {
+                if clone_own_armed {
+                    // C16: dry run first; if the armed destructor would clone a handle to a
+                    // dead object the real run must end the process - say so beforehand
+                    world::set_benign_clone_own(true);
+                    let (m_dry, _o) = run_history_from(&cfg, l, &h2, hist.len(), false, false, false);
+                    world::set_benign_clone_own(false);
+                    if m_dry.noted_dead_clone {
+                        writeln!(out, "X {l}").unwrap();
+                        out.flush().unwrap();
+                    }
+                }
                 let (_m, o) = run_history_from(&cfg, l, &h2, hist.len(), cfg.probe, false, cost);
                 for v in &o.viol {
                     viols.push((l, o.viol_step, v.clone()));
@@ -457,6 +469,7 @@ fn explore(args: &[String]) -> i32 {
 
     let workers: Vec<Mutex<Option<WorkerProc>>> = (0..nworkers).map(|_| Mutex::new(None)).collect();
     let gens = AtomicUsize::new(0);
+    let expected_aborts_owner = AtomicUsize::new(0);
     let mut dump = std::env::var("MC_DUMP_VIOLS").ok().map(|p| BufWriter::new(std::fs::File::create(p).unwrap()));
     let symbolizer_owner = Mutex::new(Symbolizer::new());
 
@@ -488,6 +501,7 @@ fn explore(args: &[String]) -> i32 {
                 let cfg_spec = &cfg_spec;
                 let run_dir = &run_dir;
                 let crash_count = &crash_count;
+                let expected_aborts = &expected_aborts_owner;
                 let symbolizer = &symbolizer_owner;
                 scope.spawn(move || {
                     let mut guard = workers[wi].lock().unwrap();
@@ -510,6 +524,7 @@ fn explore(args: &[String]) -> i32 {
                             let sent = writeln!(wp.stdin, "{skip} {} {hist_s}", careful as u8).and_then(|_| wp.stdin.flush());
                             let mut announced: Option<(usize, Op)> = None;
                             let mut stale_state = false;
+                            let mut expect_abort = false;
                             let mut pending: Option<Trans> = None;
                             let mut line = String::new();
                             let mut died = sent.is_err();
@@ -528,7 +543,11 @@ fn explore(args: &[String]) -> i32 {
                                     b'S' => {
                                         stale_state = l.ends_with(" 1");
                                     }
+                                    b'X' => {
+                                        expect_abort = true;
+                                    }
                                     b'B' => {
+                                        expect_abort = false;
                                         if let Some(t) = pending.take() {
                                             local.push(t);
                                         }
@@ -609,6 +628,15 @@ fn explore(args: &[String]) -> i32 {
                                 careful = true;
                                 skip = 0;
                                 continue 'state;
+                            }
+                            if expect_abort && (sig.starts_with("crash:signal-4") || sig.starts_with("crash:signal-6")) {
+                                // C16: the process ended exactly where cloning a handle to a
+                                // destroyed object was announced - the required behaviour
+                                if let Some((i, _op)) = announced {
+                                    expected_aborts.fetch_add(1, Ordering::Relaxed);
+                                    skip = i + 1;
+                                    continue 'state;
+                                }
                             }
                             crash_count.fetch_add(1, Ordering::Relaxed);
                             match announced {
@@ -757,7 +785,7 @@ fn explore(args: &[String]) -> i32 {
     j.push_str(&format!(" \"states\": {states},\n \"transitions\": {transitions},\n \"executions\": {executions},\n"));
     j.push_str(&format!(" \"depth_completed\": {depth},\n \"exhaustive\": {},\n \"cap_reason\": {},\n", !capped, jstr(&cap_reason)));
     j.push_str(&format!(" \"level_sizes\": [{}],\n", level_sizes.iter().map(|x| x.to_string()).collect::<Vec<_>>().join(",")));
-    j.push_str(&format!(" \"worker_crashes\": {crashes},\n"));
+    j.push_str(&format!(" \"worker_crashes\": {crashes},\n \"expected_aborts\": {},\n", expected_aborts_owner.load(Ordering::Relaxed)));
     j.push_str(&format!(" \"distinct_destroyed_sets\": {},\n", distinct_died.len()));
     j.push_str(&format!(
         " \"teardown_paths\": {{\"plain\": {}, \"zero_count_with_adoptions\": {}, \"group\": {}, \"dead_handle\": {}, \"traced_but_reachable\": {}}},\n",
